@@ -180,6 +180,13 @@ def _max(ex, path, args, kwargs, node, fn):
     return r
 
 
+@model("divmod", doc="divmod(a, b) == (a // b, a % b) (same encoding and the same positive-divisor obligation as the two operators)")
+def _divmod(ex, path, args, kwargs, node, fn):
+    a, b = args
+    line = getattr(node, "lineno", None)
+    return PyList([arith(ast.FloorDiv(), a, b, ex.ctx, path, line), arith(ast.Mod(), a, b, ex.ctx, path, line)], None, True)
+
+
 @model("isinstance")
 def _isinstance(ex, path, args, kwargs, node, fn):
     v, t = args
